@@ -132,8 +132,7 @@ def run(ctx):
             ctx.instance(site, {'rule': 'C15.R1', 'fn': f.nice, 'loc': f'{f.file}:{line}', 'use': cons, 'kind': kind})
             if kind == 'escape':
                 if f.nice == M.T + 'rows_mut':
-                    ctx.exempt(site, 'rows_mut is the declared raw accessor of ALTER TABLE (values added, removed or widened per column); the constraint hash indexes are keyed by key values that are '
-                               'looked up through the schema at every operation, so a shift of column positions leaves them valid (the first-round rule R4 was withdrawn, DESIGN 10.4)')
+                    ctx.exempt(site, 'rows_mut is the declared raw accessor of ALTER TABLE; its callers carry the obligation (rule R4: a column that leaves the rows takes its UNIQUE constraints along)')
                 else:
                     ctx.finding(site, f'{f.nice} hands out a mutable reference to the row vector', f'{f.file}:{line}')
                 continue
@@ -226,6 +225,16 @@ def run(ctx):
                    'none exists for the new name at that point (the registry entry left under the old name is C33\'s clause)'})
     n3 = count_sites(M.ROW_INSERT, 'R3')
     ctx.floor('C15.R3 Table::insert call sites outside impl Table', n3, 6)
+
+    # ---------------------------------------------------------------- R4 a column leaves the rows => Table::rebuild_indexes
+    ctx.rule('C15.R4', 'a function that removes a column\'s value from the stored rows (Row::remove_value: the column leaves the schema too, and with it every UNIQUE constraint '
+             'it belonged to; the constraint hash indexes are a vector with one slot per constraint) calls Table::rebuild_indexes on every Ok path')
+    ROW_SHIFT = {'vibesql_storage::row::Row::remove_value'}
+    fo_r = Follow(prog, cg, lambda t, fn: callee_name(t) in ROW_SHIFT and fn.unit != 'vibesql_storage',
+                  lambda t, fn: callee_name(t) == M.T + 'rebuild_indexes', scope, dead=dead)
+    report(fo_r, 'R4', 'is not followed by Table::rebuild_indexes (constraint hash indexes) on every successful path', '', 0)
+    n4 = count_sites(ROW_SHIFT, 'R4')
+    ctx.floor('C15.R4 Row::remove_value call sites', n4, 1)
 
     # ---------------------------------------------------------------- R5 no error return between mutation and maintenance
     ctx.rule('C15.R5', 'between a row mutation and its user-index maintenance call no Err return is reachable '
